@@ -226,3 +226,25 @@ CHECKS["C17"] = dict(
     level_note=E1_NOTE,
     parts=[dict(pkg=MISC, run="^TestC17_FaucetLimits$", quick=200, thorough=20000, floor=5)],
 )
+ZCHK = "verifharness/checks/zcnchk"
+CHECKS["C18"] = dict(
+    level="exploration", engine="E1",
+    technique="model-based property-based testing on the full-chain simulator with a signature-list grammar (valid, well-formed forgeries, foreign keys, garbage, duplicates) and an independent quorum oracle",
+    level_text="Bridge worlds with generated authorizer sets and quorum fractions receive generated mint requests whose signature lists mix valid signatures, well-formed signatures over other payloads or by unregistered keys, garbage and duplicates; the harness, which owns all keys, recomputes how many distinct registered authorizers really signed the exact message and requires that for every accepted mint, together with submitter == receiver, nonce freshness, exact amounts and nonce recording; a clean quorum must be accepted.",
+    level_note=E1_NOTE + " 'Configured fraction' = round-half-even(percent_authorizers * registered), the contract's own rounding.",
+    parts=[dict(pkg=ZCHK, run="^TestC18_MintNeedsQuorumOnce$", quick=200, thorough=20000, floor=10)],
+)
+CHECKS["C19"] = dict(
+    level="exploration", engine="E1",
+    technique="model-based property-based testing on the full-chain simulator (burn nonce per address counted from observed successes, exact balance deltas)",
+    level_text="Generated burns (values around the minimum, repeated / new / empty Ethereum addresses, interleaved senders, fees) on the real chain; success must move exactly the value to the bridge wallet and advance exactly that address' burn nonce by one; refused burns move only the fee.",
+    level_note=E1_NOTE,
+    parts=[dict(pkg=ZCHK, run="^TestC19_BurnLocksAndAdvancesNonce$", quick=200, thorough=20000, floor=10)],
+)
+CHECKS["C21"] = dict(
+    level="exploration", engine="E1",
+    technique="model-based property-based testing on the full-chain simulator: generated wallets (t-of-n BLS threshold shares) and vote sequences vs a model of distinct valid voters per lifetime window",
+    level_text="Generated multisig wallets are registered and funded through real transactions; generated vote sequences (duplicates, bad share signatures, incompatible transfers, non-signers, votes after expiry and after execution) run on the real chain; the wallet may pay only in the vote that brings the distinct valid voter set to the threshold, exactly once, exactly the proposal's transfer, and the stored wallet signature must verify.",
+    level_note=E1_NOTE + " Threshold shares are built with the same construction as BLS0GenerateThresholdKeyShares but derived coefficients (the library's CSPRNG would make ids irreproducible).",
+    parts=[dict(pkg=ZCHK, run="^TestC21_MultisigExecutesOnce$", quick=200, thorough=20000, floor=5)],
+)
